@@ -247,7 +247,7 @@ def line_atomicity(ctx):
     ctx.analysed(enc)
     rets = [n for n in body_walk(enc.node) if isinstance(n, ast.Return)]
     for r in rets:
-        v = r.value
+        v = resolved(r.value, enc.node)
         ok = isinstance(v, ast.BinOp) and isinstance(v.op, ast.Add) and src(v.right) == 'EOL' and 'EOL' not in src(v.left) \
             and "encode('utf-8')" in src(v.left)
         ctx.check(ok, f'{enc.qualname}:exactly one EOL appended', r, '<utf-8 text> + EOL',
@@ -429,7 +429,11 @@ def deframer_has_no_other_early_out(ctx):
     rets = [n for n in body_walk(nm.node) if isinstance(n, ast.Return) and (n.value is None or (isinstance(n.value, ast.Constant) and n.value.value is None))]
     for r in rets:
         guards = [src(a.test) for a in ancestors(r) if isinstance(a, ast.If)]
-        ok = all(cfg.dominates(gm, i) for i in cfg.ids(r)) and any('is None' in g for g in guards)
+        # the return lies only where a test established `<message> is None` (an enclosing if, or the code after an if whose
+        # body returns)
+        none_side = sides_with_fact(cfg, lambda a, tv: isinstance(a, ast.Compare) and len(a.ops) == 1 and isinstance(a.comparators[0], ast.Constant)
+                                    and a.comparators[0].value is None and ((isinstance(a.ops[0], ast.Is) and tv) or (isinstance(a.ops[0], ast.IsNot) and not tv)))
+        ok = all(cfg.dominates(gm, i) for i in cfg.ids(r)) and set(cfg.ids(r)) <= none_side
         ctx.check(ok, f'{nm.qualname}:no message only when get_msg found none', r, 'return None is dominated by get_msg() and guarded by `message is None`',
                   f'`return None` under {guards or "no condition"} is not decided by get_msg(): complete lines that are already in the buffer '
                   'stay unanswered for some segmentations of the byte stream', nm)
